@@ -172,6 +172,33 @@ func enumPairs(tier string, yield func(pairCase) bool) {
 			}
 		}
 	}
+	// a U-shaped hole (a tongue of polygon material hangs into it from the top): open lines that run down one
+	// arm, along the bottom and up the other arm stay strictly inside the hole although the chord between
+	// their ends crosses the tongue - an open line is not a closed cycle
+	{
+		a := exact.Shape{K: exact.KPoly, Ext: pp(0, 0, 12, 0, 12, 12, 0, 12),
+			Holes: [][]exact.P{pp(1, 1, 11, 1, 11, 11, 8, 11, 8, 4, 4, 4, 4, 11, 1, 11)}}
+		if exact.ValidShape(&a) {
+			k := 0
+			for _, x1 := range []int64{2, 3} {
+				for y1 := int64(2); y1 <= 10; y1 += 2 {
+					for _, yb := range []int64{2, 3} {
+						for _, x4 := range []int64{9, 10} {
+							for y4 := int64(2); y4 <= 11; y4 += 3 {
+								ln := pp(x1, y1, x1, yb, x4, yb, x4, y4) // pp works in half units, like the bases
+								for _, l := range [][]exact.P{ln, reverseSeq(ln), append(append([]exact.P{}, ln...), ln[0])} {
+									k++
+									if !yield(pairCase{A: a, B: exact.Shape{K: exact.KLine, Line: l}, EA: enumEncs[k%3], EB: enumEncs[(k/3)%3]}) {
+										return
+									}
+								}
+							}
+						}
+					}
+				}
+			}
+		}
+	}
 	for _, bs := range baseShapes() {
 		variants := []exact.Shape{bs.s}
 		swap := func(p exact.P) exact.P { return exact.P{X: p.Y, Y: p.X} }
